@@ -137,7 +137,18 @@ impl<'a> ProgGen<'a> {
             // a variable read of a name that is only bound as a function; a re-entrant function; a function that
             // rejects non-tuples with the library's own error
             let k = self.k;
-            return match self.r.below(8) {
+            return match self.r.below(11) {
+                // `if` is a function like any other: all three arguments are evaluated, in order, before it is applied
+                8 => Ast::Call("if".into(), Box::new(Ast::Tuple(vec![call("b", k), call("t", k), Ast::Group(Box::new(Ast::Chain(vec![if k % 2 == 0 { call("fail", k) } else { Ast::Read(format!("u{}", k)) }, call("t", k + 1000)])))]))),
+                9 => Ast::Call("if".into(), Box::new(Ast::Tuple(vec![Ast::Const(RV::Bool(k % 2 == 0)), Ast::Assign("=", "x".into(), Box::new(call("t", k))), Ast::Assign("=", "y".into(), Box::new(call("t", k + 1)))]))),
+                // a builtin of fixed arity called with another number of arguments fails when it is called, after its
+                // arguments (and everything before the call) have been evaluated
+                10 => {
+                    let name = *self.r.pick(&["math::pow", "math::atan2", "bitand", "shl", "if", "math::log", "str::substring", "math::hypot"]);
+                    let n = *self.r.pick(&[1usize, 3, 4]);
+                    let args: Vec<Ast> = (0..n).map(|j| call("t", k + j as i64)).collect();
+                    Ast::Call(name.into(), Box::new(if n == 1 { args.into_iter().next().unwrap() } else { Ast::Tuple(args) }))
+                },
                 // dozens of nested evaluations on this thread (more than 64), or none
                 7 => call("deep", if k % 3 == 0 { 2 } else { 66 + k % 12 }),
                 // text with line endings of every kind inside a literal is that text, for every entry point
@@ -514,9 +525,18 @@ pub fn check_program(out: &mut Out, ast: &Ast, model: &Model, r: &mut Rng) {
     let tree = match api::build(&src) {
         Built::Tree(t) => t,
         Built::Err(_, d) => {
-            // C02's business; here the program simply cannot be judged
-            out.count("program does not precompile (left to C02/C05)");
-            let _ = d;
+            // a program the reference claims (it is well-formed by construction) that does not precompile can have no
+            // effects at all, which is not what the reference run shows unless that run has none either
+            if !matches!(rr.result, Err(crate::refmodel::eval::RErr::Unclaimed(_))) && !rr.run.log.is_empty() {
+                out.violation(
+                    "order/well-formed-program-rejected-before-its-effects",
+                    format!("{}   [initial context {}]", src, model.show_vars()),
+                    format!("{} after the effects {}", exec::show_ref_result(&rr.result), exec::show_effects(&rr.run.log)),
+                    format!("build_operator_tree: Err({})", d),
+                );
+            } else {
+                out.count("program does not precompile (left to C02/C05)");
+            }
             return;
         },
         Built::Panic(p) => {
